@@ -173,6 +173,30 @@ def _local_names(fn) -> frozenset:
     return r
 
 
+class GenList(list):
+    """The values of a generator (expression or function), produced eagerly; next() consumes from the front."""
+
+
+_GEN_CACHE: Dict[int, bool] = {}
+
+
+def _is_generator(fn) -> bool:
+    r = _GEN_CACHE.get(id(fn))
+    if r is None:
+        r = False
+        stack = list(fn.body)
+        while stack:
+            n = stack.pop()
+            if isinstance(n, (ast.FunctionDef, ast.AsyncFunctionDef, ast.ClassDef, ast.Lambda)):
+                continue
+            if isinstance(n, (ast.Yield, ast.YieldFrom)):
+                r = True
+                break
+            stack.extend(ast.iter_child_nodes(n))
+        _GEN_CACHE[id(fn)] = r
+    return r
+
+
 def _concrete_number(x) -> bool:
     import numpy as _np
     if isinstance(x, (bool, int, float, complex, _np.generic)):
@@ -451,6 +475,15 @@ class Interp:
                 self._bind_args(fn.args, args, kwargs, env, fn)
                 return self.ev(fn.body, env)
             self._bind_args(fn.args, ([self_obj] if self_obj is not None else []) + list(args), kwargs, env, fn)
+            if _is_generator(fn):
+                # generator function: evaluated eagerly, the values it yields collected in order (exact for generators
+                # whose body has no effect the consumer could observe between two values)
+                env.yields = GenList()
+                try:
+                    self.exec_block(fn.body, env)
+                except _Return:
+                    pass
+                return env.yields
             try:
                 self.exec_block(fn.body, env)
             except _Return as r:
@@ -458,6 +491,27 @@ class Interp:
             return None
         finally:
             self._depth -= 1
+
+    def _ev_Yield(self, node, env):
+        e = env
+        while e is not None and not hasattr(e, 'yields'):
+            e = e.parent
+        if e is None:
+            raise Unsupported(node, 'yield outside a generator function')
+        e.yields.append(self.ev(node.value, env) if node.value is not None else None)
+        return None
+
+    def _ev_YieldFrom(self, node, env):
+        e = env
+        while e is not None and not hasattr(e, 'yields'):
+            e = e.parent
+        if e is None:
+            raise Unsupported(node, 'yield from outside a generator function')
+        v = self.ev(node.value, env)
+        if v is TOP:
+            raise Unsupported(node, 'yield from an untracked iterable')
+        e.yields.extend(self.iterate(v, node))
+        return None
 
     def _bind_args(self, a: ast.arguments, args: list, kwargs: dict, env: Env, fn) -> None:
         params = [p.arg for p in a.posonlyargs + a.args]
@@ -1228,7 +1282,7 @@ class Interp:
         return self._comp(node, env, 'list')
 
     def _ev_GeneratorExp(self, node, env):
-        return self._comp(node, env, 'list')
+        return GenList(self._comp(node, env, 'list'))
 
     def _ev_SetComp(self, node, env):
         try:
@@ -1304,6 +1358,9 @@ class Interp:
             name = func.__name__
             mutators = ('append', 'extend', 'insert', 'add', 'update', 'setdefault', 'pop', 'remove',
                         'clear', 'sort', 'reverse', 'discard')
+            if name in ('index', 'count') and isinstance(func.__self__, (list, tuple)) \
+                    and (_contains_top(func.__self__) or _deep_abstract(func.__self__)):
+                return TOP                # a search among elements the analysis does not know
             if any(_contains_top(a) or _deep_abstract(a) for a in args) and name not in mutators:
                 if name in ('get',) and isinstance(func.__self__, dict):
                     vals = list(func.__self__.values()) + ([args[1]] if len(args) > 1 else [None])
@@ -1360,6 +1417,14 @@ class Interp:
                     return TOP
             if isinstance(v, _CONCRETE):
                 return v                      # immutable
+        if name == 'builtins.next' and args and isinstance(args[0], GenList) and not kwargs and len(args) <= 2:
+            if args[0]:
+                return args[0].pop(0)
+            if len(args) == 2:
+                return args[1]
+            raise PathRaise('StopIteration', node)
+        if name == 'builtins.iter' and len(args) == 1 and isinstance(args[0], (list, tuple, GenList)) and not _contains_top(args[0]):
+            return args[0] if isinstance(args[0], GenList) else GenList(args[0])
         if name.startswith('builtins.'):
             b = name[len('builtins.'):]
             if b in _SAFE_BUILTINS:
